@@ -113,6 +113,7 @@ struct OptRef {
 
 // every option of the schema with an address (multi-section instances addressed with index 0..2)
 std::vector<OptRef> collect_opts(Rng &r, const json &opts);
+std::string path_prefix(Rng &r, const json &at); // the stepwise address written as leading path components
 
 struct ApiGen {
 	bool illegal = true;     // wrong type / bad index / unknown name calls
